@@ -38,6 +38,9 @@ structure SCState where
   fxs : List Nat := []
   /-- the kind of every effect handle ever created (a handle outlives its effect) -/
   fxKinds : List (Nat × String) := []
+  /-- handles of nested feedback effects: (owning top-level effect, path inside it, kind), in the order
+      `DelayBuilder::add_feedback_effect` returned them; never dropped -/
+  subfxs : List (Nat × List Nat × String) := []
   nextTrack : Nat := 0
   nextSend : Nat := 0
   nextClock : Nat := 0
@@ -197,6 +200,31 @@ def fxKindName (e : Fx) : String :=
   | FxOver.base (.reverb _) => "reverb" | FxOver.base (.vol _) => "vol"
   | FxOver.base (.pan _) => "pan" | FxOver.delay _ => "delay"
 
+def fxKindOver {φ : Type} : FxOver Float φ → String
+  | FxOver.base (.filter _) => "filter" | FxOver.base (.eq _) => "eq"
+  | FxOver.base (.dist _) => "dist" | FxOver.base (.comp _) => "comp"
+  | FxOver.base (.reverb _) => "reverb" | FxOver.base (.vol _) => "vol"
+  | FxOver.base (.pan _) => "pan" | FxOver.delay _ => "delay"
+
+def fxKindN : (n : Nat) → FxN Float n → String
+  | 0, e => fxKindOver (φ := Empty) e
+  | n + 1, e => fxKindOver (φ := FxN Float n) e
+
+/-- the effects nested inside one effect with their paths, a delay's children (and theirs) before the next sibling:
+    the order in which the harness receives their handles -/
+def subPathsN : (n : Nat) → FxN Float n → List (List Nat × String)
+  | 0, _ => []
+  | n + 1, e =>
+    match (e : FxOver Float (FxN Float n)) with
+    | .delay d =>
+      d.fx.1.zipIdx.flatMap (fun (c, i) =>
+        (subPathsN n c).map (fun (p, k) => (i :: p, k)) ++
+          [([i], fxKindN n c)])
+    | .base _ => []
+
+def subsOf (fx : List Fx) : List (Nat × List Nat × String) :=
+  fx.flatMap (fun e => (subPathsN depth e.fx).map (fun (p, k) => (e.id, p, k)))
+
 def kindsOf (fx : List Fx) : List (Nat × String) := fx.map (fun e => (e.id, fxKindName e))
 
 /-- `-` or `<send idx>=<V32>,…` (send handle table; an empty table drops the route) -/
@@ -265,6 +293,37 @@ def showScene (st : SCState) (sy : Sy) : String :=
 
 /-! ### the step function -/
 
+/-- the handle method a parameter name selects on a handle of the given kind (`none`: the handle has no such method) -/
+def fxCmdOf (st : SCState) (kind param v : String) (tw : Tween Float) : Option (FxCmd Float) :=
+  let v32 := parseV codec32 st v
+  let v64 := parseV codec64 st v
+  -- the parameter name selects the handle method; a name the effect's handle does not have is `nop`
+  -- (the handle outlives its effect: the kind is the handle's, recorded when it was built)
+  match kind, param with
+    | "filter", "cutoff" => v64.map (fun v => .filterCutoff v tw)
+    | "filter", "resonance" => v64.map (fun v => .filterResonance v tw)
+    | "filter", "mix" => v32.map (fun v => .filterMix v tw)
+    | "eq", "frequency" => v64.map (fun v => .eqFrequency v tw)
+    | "eq", "gain" => v32.map (fun v => .eqGain v tw)
+    | "eq", "q" => v64.map (fun v => .eqQ v tw)
+    | "dist", "drive" => v32.map (fun v => .distDrive v tw)
+    | "dist", "mix" => v32.map (fun v => .distMix v tw)
+    | "comp", "threshold" => v64.map (fun v => .compThreshold v tw)
+    | "comp", "ratio" => v64.map (fun v => .compRatio v tw)
+    | "comp", "attack" => (parseVDur v).map (fun v => .compAttack v tw)
+    | "comp", "release" => (parseVDur v).map (fun v => .compRelease v tw)
+    | "comp", "makeup" => v32.map (fun v => .compMakeup v tw)
+    | "comp", "mix" => v32.map (fun v => .compMix v tw)
+    | "reverb", "rfeedback" => v64.map (fun v => .reverbFeedback v tw)
+    | "reverb", "damping" => v64.map (fun v => .reverbDamping v tw)
+    | "reverb", "width" => v64.map (fun v => .reverbStereoWidth v tw)
+    | "reverb", "mix" => v32.map (fun v => .reverbMix v tw)
+    | "vol", "volume" => v32.map (fun v => .volVolume v tw)
+    | "pan", "panning" => v32.map (fun v => .panPanning v tw)
+    | "delay", "feedback" => v32.map (fun v => .delayFeedback v tw)
+    | "delay", "mix" => v32.map (fun v => .delayMix v tw)
+    | _, _ => none
+
 def setSys (st : SCState) (sy : Sy) : SCState := { st with sys := some sy }
 
 def scStep (st : SCState) (tok : List String) : Option (SCState × String) :=
@@ -275,13 +334,15 @@ def scStep (st : SCState) (tok : List String) : Option (SCState × String) :=
       let vol ← parseV codec32 st0 vol
       let (fx, nfx) ← parseFxList st0 fx 0
       let sy : Sy := System.new scFuel ibs sr vol fx
-      pure ({ st0 with sys := some sy, nextFx := nfx, fxs := fx.map (·.id), fxKinds := kindsOf fx }, "ok")
+      pure ({ st0 with sys := some sy, nextFx := nfx, fxs := fx.map (·.id), fxKinds := kindsOf fx, subfxs := subsOf fx }, "ok")
+  -- an oracle-only op (nested command delivery, checked on the real code): nothing to mirror
+  | _, "nest" :: _ => pure (st, "ok")
   | none, _ => none
   | some sy, ["send", vol, fx] => do
       let vol ← parseV codec32 st vol
       let (fx, nfx) ← parseFxList st fx st.nextFx
       let id := st.nextSend
-      pure ({ st with sys := some (sy.addSendTrack id vol fx), nextFx := nfx, fxs := st.fxs ++ fx.map (·.id), fxKinds := st.fxKinds ++ kindsOf fx,
+      pure ({ st with sys := some (sy.addSendTrack id vol fx), nextFx := nfx, fxs := st.fxs ++ fx.map (·.id), fxKinds := st.fxKinds ++ kindsOf fx, subfxs := st.subfxs ++ subsOf fx,
                       nextSend := id + 1, sends := st.sends ++ [id] }, "ok")
   | some sy, ["track", parent, vol, persist, sends, fx] => do
       let parent ← int? parent
@@ -294,7 +355,7 @@ def scStep (st : SCState) (tok : List String) : Option (SCState × String) :=
       let cnt := match par with
         | none => sy'.r.mixer.hNumSubTracks
         | some p => ((sy'.r.mixer.findTrack p).map Trk.hNumSubTracks).getD 0
-      pure ({ st with sys := some sy', nextFx := nfx, fxs := st.fxs ++ fx.map (·.id), fxKinds := st.fxKinds ++ kindsOf fx,
+      pure ({ st with sys := some sy', nextFx := nfx, fxs := st.fxs ++ fx.map (·.id), fxKinds := st.fxKinds ++ kindsOf fx, subfxs := st.subfxs ++ subsOf fx,
                       nextTrack := id + 1, tracks := st.tracks ++ [id] }, s!"ok {cnt}")
   | some sy, ["listener", p, q] => do
       let p ← parseVG parseVec3 st p; let q ← parseVG parseQuat st q
@@ -329,7 +390,7 @@ def scStep (st : SCState) (tok : List String) : Option (SCState × String) :=
         let cnt := match par with
           | none => sy'.r.mixer.hNumSubTracks
           | some p => ((sy'.r.mixer.findTrack p).map Trk.hNumSubTracks).getD 0
-        pure ({ st with sys := some sy', nextFx := nfx, fxs := st.fxs ++ fx.map (·.id), fxKinds := st.fxKinds ++ kindsOf fx,
+        pure ({ st with sys := some sy', nextFx := nfx, fxs := st.fxs ++ fx.map (·.id), fxKinds := st.fxKinds ++ kindsOf fx, subfxs := st.subfxs ++ subsOf fx,
                         nextTrack := id + 1, tracks := st.tracks ++ [id], spatialTracks := id :: st.spatialTracks },
               s!"ok {cnt}")
   | some sy, ["clock", cs] => do
@@ -486,37 +547,26 @@ def scStep (st : SCState) (tok : List String) : Option (SCState × String) :=
       match pick st.fxs i with
       | none => pure (st, "skip")
       | some id =>
-        let v32 := parseV codec32 st v
-        let v64 := parseV codec64 st v
-        -- the parameter name selects the handle method; a name the effect's handle does not have is `nop`
-        -- (the handle outlives its effect: the kind is the handle's, recorded when it was built)
         let kind : String := (st.fxKinds.lookup id).getD "gone"
-        let c : Option (FxCmd Float) := match kind, param with
-          | "filter", "cutoff" => v64.map (fun v => .filterCutoff v tw)
-          | "filter", "resonance" => v64.map (fun v => .filterResonance v tw)
-          | "filter", "mix" => v32.map (fun v => .filterMix v tw)
-          | "eq", "frequency" => v64.map (fun v => .eqFrequency v tw)
-          | "eq", "gain" => v32.map (fun v => .eqGain v tw)
-          | "eq", "q" => v64.map (fun v => .eqQ v tw)
-          | "dist", "drive" => v32.map (fun v => .distDrive v tw)
-          | "dist", "mix" => v32.map (fun v => .distMix v tw)
-          | "comp", "threshold" => v64.map (fun v => .compThreshold v tw)
-          | "comp", "ratio" => v64.map (fun v => .compRatio v tw)
-          | "comp", "attack" => (parseVDur v).map (fun v => .compAttack v tw)
-          | "comp", "release" => (parseVDur v).map (fun v => .compRelease v tw)
-          | "comp", "makeup" => v32.map (fun v => .compMakeup v tw)
-          | "comp", "mix" => v32.map (fun v => .compMix v tw)
-          | "reverb", "rfeedback" => v64.map (fun v => .reverbFeedback v tw)
-          | "reverb", "damping" => v64.map (fun v => .reverbDamping v tw)
-          | "reverb", "width" => v64.map (fun v => .reverbStereoWidth v tw)
-          | "reverb", "mix" => v32.map (fun v => .reverbMix v tw)
-          | "vol", "volume" => v32.map (fun v => .volVolume v tw)
-          | "pan", "panning" => v32.map (fun v => .panPanning v tw)
-          | "delay", "feedback" => v32.map (fun v => .delayFeedback v tw)
-          | "delay", "mix" => v32.map (fun v => .delayMix v tw)
-          | _, _ => none
+        let c : Option (FxCmd Float) := fxCmdOf st kind param v tw
         match c with
         | some c => pure (setSys st (sy.fxCommand id c), s!"ok {kind}")
+        | none => pure (st, s!"nop {kind}")
+  | some sy, ["fx.sub", i, param, v, tw] => do
+      let i ← nat? i; let tw ← parseTweenR st tw
+      if st.subfxs.isEmpty then pure (st, "skip") else
+      match st.subfxs[i % st.subfxs.length]? with
+      | none => pure (st, "skip")
+      | some (id, path, kind) =>
+        if param == "mode" then do
+          let k ← nat? v
+          let sy1 := sy.fxCommandAt id path (.filterMode (filterModeOf k))
+          let sy2 := sy1.fxCommandAt id path (.eqKind (eqKindOf k))
+          let sy3 := sy2.fxCommandAt id path (.distKind (distKindOf k))
+          pure (setSys st sy3, s!"ok {kind}")
+        else
+        match fxCmdOf st kind param v tw with
+        | some c => pure (setSys st (sy.fxCommandAt id path c), s!"ok {kind}")
         | none => pure (st, s!"nop {kind}")
   | some sy, ["fx.mode", i, k] => do
       let i ← nat? i; let k ← nat? k
